@@ -43,6 +43,7 @@ type propCfg struct {
 type shardResult struct {
 	Property    string            `json:"property"`
 	Evaluations int64             `json:"evaluations"`
+	BulkNT      int64             `json:"bulk_distinct_nontrivial"`
 	Classes     map[string]int64  `json:"classes"`
 	Samples     []json.RawMessage `json:"samples"`
 	Excluded    map[string]int64  `json:"excluded"`
@@ -219,6 +220,17 @@ func main() {
 			}
 			continue
 		}
+		if code == 66 { // Go race detector with halt_on_error
+			cur := filepath.Join(work, fmt.Sprintf("%s.current.shard%d.json", *prop, i))
+			var f failure
+			if cb, err := os.ReadFile(cur); err == nil && json.Unmarshal(cb, &f) == nil {
+				f.Message += "\n" + raceReport(outs[i].log)
+				failures = append(failures, f)
+			} else {
+				infra = append(infra, fmt.Sprintf("shard %d: race detector halted the process but no case was recorded\n%s", i, tail(outs[i].log, 40)))
+			}
+			continue
+		}
 		b, err := os.ReadFile(base + ".json")
 		if err != nil {
 			infra = append(infra, fmt.Sprintf("shard %d: exit %d and no result file\n%s", i, code, tail(outs[i].log, 60)))
@@ -236,6 +248,7 @@ func main() {
 			infra = append(infra, fmt.Sprintf("shard %d: a rapid run passed fewer cases than requested", i))
 		}
 		merged.Evaluations += sr.Evaluations
+		merged.BulkNT += sr.BulkNT
 		merged.Replayed += sr.Replayed
 		for k, v := range sr.Classes {
 			merged.Classes[k] += v
@@ -269,6 +282,7 @@ func main() {
 		}
 	}
 	merged.Evaluations += fuzzExecs
+	distinct += int(merged.BulkNT)
 
 	// ---- known findings
 	known := loadFindings()
@@ -344,6 +358,15 @@ func hash(b []byte) uint64 {
 		h *= 1099511628211
 	}
 	return h
+}
+
+// raceReport cuts the first data race report out of a test log.
+func raceReport(log string) string {
+	i := strings.Index(log, "WARNING: DATA RACE")
+	if i < 0 {
+		return tail(log, 30)
+	}
+	return firstLines(log[i:], 45)
 }
 
 func firstLines(s string, n int) string {
